@@ -130,3 +130,35 @@ func (g *Genesis) buildOLVM(t TxReq) *Built {
 }
 
 var _ = fmt.Sprint
+
+// resignOLVM signs a changed OLVM raw transaction the way its sender would: over the legacy
+// ethereum transaction the handler derives from the (changed) payload, with a memo that is the
+// payload's sequence number - so that hostile payloads get past the signature check and reach
+// the code behind it.  A payload that does not parse is signed as if it were the original.
+func (g *Genesis) resignOLVM(bt *Built, raw action.RawTx) []byte {
+	var tx aolvm.Transaction
+	if err := tx.Unmarshal(raw.Data); err != nil {
+		_ = tx.Unmarshal(bt.RawTx.Data)
+	}
+	var ethTo *ethcmn.Address
+	if tx.To != nil {
+		e := ethcmn.BytesToAddress(*tx.To)
+		ethTo = &e
+	}
+	value := tx.Amount.Value.BigInt()
+	if value == nil {
+		value = new(big.Int)
+	}
+	price := raw.Fee.Price.Value.BigInt()
+	if price == nil {
+		price = new(big.Int)
+	}
+	raw.Memo = strconv.FormatUint(tx.Nonce, 10)
+	ethTx := ethtypes.NewTx(&ethtypes.LegacyTx{Nonce: tx.Nonce, To: ethTo, Value: value, Gas: uint64(raw.Fee.Gas), GasPrice: price, Data: tx.Data})
+	signer := ethtypes.NewEIP155Signer(utils.HashToBigInt(g.Spec.ChainID))
+	key := NewEthAcct(bt.Req.S("from")).Priv
+	sig, err := ethcrypto.Sign(signer.Hash(ethTx).Bytes(), key)
+	must(err)
+	pub := ethcrypto.CompressPubkey(&key.PublicKey)
+	return reserialize(action.SignedTx{RawTx: raw, Signatures: []action.Signature{{Signer: keys.PublicKey{KeyType: keys.SECP256K1, Data: pub}, Signed: sig}}})
+}
